@@ -25,11 +25,41 @@ global_entry_sink! { G5 }
 global_entry_sink! { G6 }
 global_entry_sink! { G7 }
 
+/// an entry that panics when it is written: with the recording test sinks of this harness (as with
+/// the stock test sink on an entry reporting a validation error) the panic happens INSIDE the
+/// destination's append; the caller catches it and the process goes on
+struct PanickyEntry;
+impl metrique_writer::Entry for PanickyEntry {
+    fn write<'a>(&'a self, _writer: &mut impl metrique_writer::EntryWriter<'a>) {
+        std::panic::panic_any("scripted panic inside the destination's append");
+    }
+}
+
+/// a stream that records what it is handed into a CountingSink (the destination type of the model)
+struct SinkStream(CountingSink);
+impl metrique_writer::EntryIoStream for SinkStream {
+    fn next(&mut self, entry: &impl metrique_writer::Entry) -> Result<(), metrique_writer::IoStreamError> {
+        let log = vcommon::recording::record(entry);
+        self.0.0.lock().unwrap().push(checks::uow_util::Appended { ticket: vcommon::sync::ticket(), log });
+        progress_tick();
+        Ok(())
+    }
+    fn flush(&mut self) -> std::io::Result<()> {
+        Ok(())
+    }
+}
+
 trait GlobalOps: Send + Sync {
     fn attach(&self, sink: CountingSink) -> AttachHandle;
+    /// the convenience entry point: a background queue over the stream, attached
+    fn attach_stream(&self, sink: CountingSink) -> AttachHandle;
+    /// waits until everything appended to the attachment so far has been written (call only while
+    /// something is attached, on a thread without overrides)
+    fn flush_attached(&self);
     fn attach_queue(&self, sh: &Arc<StreamShared>) -> AttachHandle;
     fn try_append(&self, e: IdEntry) -> Result<(), IdEntry>;
     fn append(&self, e: IdEntry);
+    fn append_panicky(&self);
     fn sink_append(&self, e: IdEntry);
     fn set_tl(&self, sink: CountingSink) -> ThreadLocalTestSinkGuard;
     fn set_rt(&self, h: &tokio::runtime::Handle, sink: CountingSink) -> TokioRuntimeTestSinkGuard;
@@ -43,6 +73,12 @@ macro_rules! impl_ops {
             fn attach(&self, sink: CountingSink) -> AttachHandle {
                 <$g as AttachGlobalEntrySink>::attach((sink, ()))
             }
+            fn attach_stream(&self, sink: CountingSink) -> AttachHandle {
+                <$g as metrique_writer::sink::AttachGlobalEntrySinkExt>::attach_to_stream(SinkStream(sink))
+            }
+            fn flush_attached(&self) {
+                vcommon::sync::block_on(<$g as GlobalEntrySink>::sink().flush_async());
+            }
             fn attach_queue(&self, sh: &Arc<StreamShared>) -> AttachHandle {
                 <$g as AttachGlobalEntrySink>::attach(BackgroundQueueBuilder::new().capacity(1 << 16).flush_interval(Duration::from_millis(2)).build_boxed(sh.stream()))
             }
@@ -51,6 +87,9 @@ macro_rules! impl_ops {
             }
             fn append(&self, e: IdEntry) {
                 <$g as GlobalEntrySink>::append(e)
+            }
+            fn append_panicky(&self) {
+                <$g as GlobalEntrySink>::append(PanickyEntry)
             }
             fn sink_append(&self, e: IdEntry) {
                 <$g as GlobalEntrySink>::sink().append_any(e)
@@ -127,7 +166,8 @@ enum AppendKind {
 
 #[derive(Clone, Debug)]
 enum Op {
-    Attach { thread: usize },
+    /// through attach() or (via_stream) attach_to_stream(); ctx: inside that runtime's context
+    Attach { thread: usize, via_stream: bool, ctx: Option<usize> },
     DetachDrop,
     InstallTl { thread: usize },
     DropTl { thread: usize },
@@ -139,6 +179,9 @@ enum Op {
     DropTlUnwinding { thread: usize },
     DropRtUnwinding { rt: usize },
     Append { thread: usize, ctx: Option<usize>, kind: AppendKind },
+    /// an append that panics inside the destination (caught): a failed append changes nothing for
+    /// any later operation, in any context
+    AppendPanicky { thread: usize, ctx: Option<usize> },
 }
 
 /// destination ids: index into `sinks`
@@ -154,6 +197,7 @@ struct Lane {
     runtimes: Vec<Arc<tokio::runtime::Runtime>>,
     model: Model,
     attach_handle: Option<AttachHandle>,
+    attached_via_stream: bool,
     rt_guards: [Option<TokioRuntimeTestSinkGuard>; 2],
     sinks: Vec<CountingSink>,
     expected: Vec<Vec<u64>>, // per sink: ids in order
@@ -172,14 +216,21 @@ impl Lane {
     fn step(&mut self, op: &Op, history: &[String], rep: &Report) -> bool {
         let witness = |what: &str, extra: vcommon::serde_json::Value| json!({"what": what, "op": format!("{op:?}"), "extra": extra, "history": history.iter().rev().take(25).rev().collect::<Vec<_>>()});
         match op.clone() {
-            Op::Attach { thread } => {
+            Op::Attach { thread, via_stream, ctx } => {
                 let (k, sink) = self.new_sink();
                 let ops = self.ops.clone();
-                let r = self.workers[thread].run(move |_| ops.attach(sink));
+                let rt = ctx.map(|r| self.runtimes[r].clone());
+                // (whether the calling thread or its runtime has a test sink installed is irrelevant
+                // to whether something is ATTACHED)
+                let r = self.workers[thread].run(move |_| {
+                    let _enter = rt.as_ref().map(|r| r.enter());
+                    if via_stream { ops.attach_stream(sink) } else { ops.attach(sink) }
+                });
                 match (self.model.attached, r) {
                     (None, Ok(h)) => {
                         self.model.attached = Some(k);
                         self.attach_handle = Some(h);
+                        self.attached_via_stream = via_stream;
                     }
                     (Some(_), Err(())) => {} // documented panic, global unchanged
                     (None, Err(())) => {
@@ -268,6 +319,24 @@ impl Lane {
                 drop(self.rt_guards[rt].take());
                 self.model.rt[rt] = None;
             }
+            Op::AppendPanicky { thread, ctx } => {
+                let dest = self.model.tl[thread].or(ctx.and_then(|r| self.model.rt[r])).or(self.model.attached);
+                // (not into a queue-backed attachment: there the entry would be written, and panic,
+                // on the queue's writer thread)
+                if !(dest.is_some() && dest == self.model.attached && self.attached_via_stream) {
+                    let ops = self.ops.clone();
+                    let rt = ctx.map(|r| self.runtimes[r].clone());
+                    let r = self.workers[thread].run(move |_| {
+                        let _enter = rt.as_ref().map(|r| r.enter());
+                        ops.append_panicky()
+                    });
+                    if r.is_ok() {
+                        rep.violation("append-outcome-differs-from-routing-reference", witness("an entry that panics when written was appended without a panic reaching the caller (with a destination it panics inside the destination, without one the append itself panics)", json!({"predicted_destination": dest})));
+                        return false;
+                    }
+                    rep.count("appends_that_panicked_inside_the_destination", dest.is_some() as u64);
+                }
+            }
             Op::Append { thread, ctx, kind } => {
                 let id = make_id(self.lane as u32, self.next_id);
                 self.next_id += 1;
@@ -313,6 +382,9 @@ impl Lane {
     }
 
     fn verify(&self, history: &[String], rep: &Report) -> bool {
+        if self.model.attached.is_some() && self.attached_via_stream {
+            self.ops.flush_attached();
+        }
         for (k, s) in self.sinks.iter().enumerate() {
             let got: Vec<u64> = s.snapshot().iter().map(|a| a.u64_field("id").unwrap_or(u64::MAX)).collect();
             if got != self.expected[k] {
@@ -345,8 +417,11 @@ fn gen_op(rng: &mut Rng) -> Op {
             _ => Op::DropRtUnwinding { rt: rng.usize_below(2) },
         };
     }
+    if rng.below(25) == 0 {
+        return Op::AppendPanicky { thread, ctx: if rng.bool() { Some(rng.usize_below(2)) } else { None } };
+    }
     match rng.below(14) {
-        0 | 1 => Op::Attach { thread },
+        0 | 1 => Op::Attach { thread, via_stream: rng.bool(), ctx: if rng.bool() { Some(rng.usize_below(2)) } else { None } },
         2 => Op::DetachDrop,
         3 | 4 => Op::InstallTl { thread },
         5 => Op::DropTl { thread },
@@ -761,6 +836,7 @@ fn main() {
                     runtimes,
                     model: Model { attached: None, tl: [None; 3], rt: [None; 2] },
                     attach_handle: None,
+                    attached_via_stream: false,
                     rt_guards: [None, None],
                     sinks: vec![],
                     expected: vec![],
